@@ -416,6 +416,15 @@ where
         self.buf_reader.buffer()
     }
 
+    // Drops the buffered data after a failed refill: the buffer is incomplete,
+    // so nothing can reliably be parsed from it or be reached by seek()
+    // without reading again.
+    #[inline(never)]
+    fn discard_buffer(&mut self) {
+        let n = self.buf_reader.buf_len();
+        self.buf_reader.consume(n);
+    }
+
     // Sets starting points for next position
     fn increment_record(&mut self) {
         self.position.line += self.buf_pos.seq_pos.len() as u64;
@@ -490,7 +499,13 @@ where
             }
 
             // fill up remaining buffer
-            fill_buf(&mut self.buf_reader)?;
+            if let Err(e) = fill_buf(&mut self.buf_reader) {
+                // The buffer is not full now, which would be mistaken for the
+                // end of the input by later calls: the error is final.
+                self.state = State::Finished;
+                self.discard_buffer();
+                return Err(e.into());
+            }
 
             if self.search()? {
                 return Ok(true);
@@ -660,7 +675,14 @@ where
         self.state = State::Positioned;
         self.search_pos = 0;
         self.buf_pos.reset(0);
-        fill_buf(&mut self.buf_reader)?;
+        if let Err(e) = fill_buf(&mut self.buf_reader) {
+            // The buffer does not (completely) hold the data at the new
+            // position: nothing can be parsed from it, and its being not
+            // full does not mean that the end of the input was reached.
+            self.state = State::Finished;
+            self.discard_buffer();
+            return Err(e.into());
+        }
         Ok(())
     }
 }
